@@ -74,3 +74,10 @@ package jsonapi
 //@ ensures known-types: result1 == nil && schema != nil ==> (forall i int :: 0 <= i && i < len(result0) ==> hasType(schema, result0[i].Type) && result0[i].ID != "")
 //@ loop 0 invariant idens: fresh(idens) && len(idens) == len(raw) && raw == pre(raw) && unchanged(heap[Identifier]) && unchanged(heap[string]) && unchanged(heap[Type]) && unchanged(heap[Schema])
 //@ loop 0 invariant done: schema != nil ==> (forall k int :: 0 <= k && k <= $idx ==> hasType(schema, idens[k].Type) && idens[k].ID != "")
+//@ func UnmarshalPartialResource+
+//@ use SoftResource.Set: keep-id checked fresh-data fresh-maps new-maps-empty typed-attrs typed-rels
+//@ use Type.AddAttr: accept added others rest same-map fresh-map wf disjoint unchanged-on-error
+//@ use Type.AddRel: accept added others rest same-map fresh-map wf disjoint unchanged-on-error
+//@ assert before Set#0 attr-added: attr.Name == a && a in res.Type.Attrs && res.Type.Attrs[a] == typ.Attrs[a]
+//@ assert before Set#1 rel-added: rel.FromName == r && r in res.Type.Rels && res.Type.Rels[r] == typ.Rels[r] && !(r in res.Type.Attrs)
+//@ assert before Set#2 rel-added: rel.FromName == r && r in res.Type.Rels && res.Type.Rels[r] == typ.Rels[r] && !(r in res.Type.Attrs)
